@@ -105,19 +105,14 @@ func vrtIntrinsic(ex *Exec, fn *ssa.Function, args []Value, site string) Value {
 			b[i] = ex.inputVar(fmt.Sprintf("%s[%d]", nm, i), 8)
 		}
 		return Str{b}
-	case "MapI64Bool":
-		nm := ex.argStr(args[0])
-		m := ex.makeMap(fn.Signature.Results().At(0).Type())
-		pres := C.Var(nm+".present", smt.Sort{AI: 64, AE: 0})
-		vals := C.Var(nm+".vals", smt.Sort{AI: 64, AE: 0})
-		m.St.V = MapState{Present: pres, Vals: vals}
-		return m
-	case "MapHas": // MapHas(m, k) bool  (ghost read without Go-level side effects)
-		m := args[0].(*MapV)
-		if m.Nil {
-			return C.False
-		}
-		return C.Select(m.St.V.(MapState).Present, args[1].(*T))
+	case "MapHas": // MapHas(m, k) bool  (ghost read)
+		return ex.mapHas(args[0].(*MapV), args[1].(*T))
+	case "Choose": // Choose(name, lo, hi) int: case split over lo..hi (each value explored as its own path)
+		v := ex.inputVar(ex.argStr(args[0]), 64)
+		lo, hi := ex.argInt(args[1]), ex.argInt(args[2])
+		ex.assume(C.BAnd(C.Sle(ex.k64(int64(lo)), v), C.Sle(v, ex.k64(int64(hi)))))
+		k := ex.concretize(v, "Choose "+ex.argStr(args[0]), hi-lo+1)
+		return ex.k64(int64(k))
 	case "Assume":
 		c := args[0].(*T)
 		if c.IsConst() && c.Val == 0 {
@@ -245,6 +240,13 @@ func vrtIntrinsic(ex *Exec, fn *ssa.Function, args []Value, site string) Value {
 			ex.callClosure(f, nil, site)
 		}()
 		return C.Bool(panicked)
+	}
+	if len(fn.Blocks) > 0 {
+		fr := &frame{fn: fn, env: make(map[ssa.Value]Value, 8), ex: ex}
+		for i, p := range fn.Params {
+			fr.env[p] = args[i]
+		}
+		return fr.run(fn.Blocks[0], nil, nil).ret
 	}
 	panic(unsupported("vrt function " + name))
 }
@@ -396,8 +398,7 @@ func (ex *Exec) deepEq(a, b Value, seen map[[2]*Cell]bool) *T {
 		if av.Nil || bv.Nil {
 			return C.Bool(av.Nil && bv.Nil)
 		}
-		sa, sb := av.St.V.(MapState), bv.St.V.(MapState)
-		return C.BAnd(C.Eq(sa.Present, sb.Present), C.Eq(sa.Vals, sb.Vals))
+		panic(unsupported("deepEq on maps"))
 	case Func:
 		bv, ok := b.(Func)
 		return C.Bool(ok && av.Fn == bv.Fn && av.Builtin == bv.Builtin)
@@ -545,8 +546,7 @@ func (ex *Exec) unchanged(s *Snapshot) *T {
 			}
 			r = C.BAnd(r, C.Eq(ov, nv))
 		case MapState:
-			nv := e.c.V.(MapState)
-			r = C.BAnd(r, C.BAnd(C.Eq(ov.Present, nv.Present), C.Eq(ov.Vals, nv.Vals)))
+			return C.False
 		default:
 			// pointer / slice / interface valued cell was rebound
 			return C.False
